@@ -339,7 +339,7 @@ func buildRequest(rng *rand.Rand, sc *Scenario, m methodInfo, cp clientPlan, hos
 		}
 	case 1: // corrupt a flag byte
 		if len(body) >= 5 {
-			body[0] = byte(rng.IntN(256))
+			body[0] = pick(rng, []byte{2, 3, 0x80, 0x81, 0x82, 4, 0xff, byte(rng.IntN(256)), byte(rng.IntN(256))})
 			e.Class("req:flag")
 			sc.gen.reqClean = false
 		}
